@@ -457,6 +457,9 @@ def fill_response(case, resp, rec):
             resp.set_header(name, value)
     for name, value in case.get('cookies') or ():
         resp.set_cookie(name, value)
+    if case.get('download'):
+        # any str is a documented value: the header must still reach the server as a valid (Latin-1) native string
+        setattr(resp, case['download'][0], case['download'][1])
     if case.get('text') is not None:
         resp.text = case['text']
     if case.get('data') is not None:
@@ -733,6 +736,8 @@ def check_case(case):
         labels.append('set_headers()')
     if case.get('proxy') and case.get('stream') and case['stream']['kind'] in PROXYABLE:
         labels.append('stream_wrapper_after_opposite_wrapper')
+    if case.get('download'):
+        labels.append('content_disposition:' + ('ascii_name' if case['download'][1].isascii() else 'non_ascii_name'))
     nontrivial = nsrc >= 2 or (bodiless and nsrc >= 1) or late_fault
     return Info(nontrivial, labels)
 
@@ -1063,6 +1068,10 @@ def _response_case(draw):
                                           'text/event-stream']))
     case['ctype_how'] = draw(st.sampled_from(['prop', 'header']))
     case['proxy'] = bool(case['stream']) and draw(st.integers(0, 3)) == 0
+    if draw(st.integers(0, 7)) == 0:
+        case['download'] = [draw(st.sampled_from(['downloadable_as', 'viewable_as'])),
+                            draw(st.sampled_from(['report.pdf', 'a b.txt', '\u043e\u0442\u0447\u0451\u0442.pdf', '\u5831\u544a\u66f8.pdf',
+                                                  '\u0142\u00f3d\u017a.txt', 'na\u00efve \u2605.csv', '\u03b1\u03b2\u03b3']))]
     if draw(st.integers(0, 2)) == 0 and not (case['stream'] and case['stream']['length'] is not None):
         n = _ref_len(dict(case, clen=None))
         case['clen'] = draw(st.sampled_from([n, n, n + 1, max(0, n - 1), 0, 10 ** 6]))
